@@ -7,14 +7,15 @@ func init() { checks["C17"] = checkC17 }
 func checkC17(rep *Report, rng *Rng, tier string) {
 	per := 12
 	sets := []int{0, cbAllNeutral, cbBeforeWrite, cbAfterRead, cbItemAlloc, cbValLength, cbValWrite, cbValRead, cbKeyCompare,
-		cbValLength | cbValWrite | cbValRead, cbItemAlloc | cbAfterRead, cbChunkMem, cbChunkMem | cbItemAlloc | cbBeforeWrite | cbAfterRead}
+		cbValLength | cbValWrite | cbValRead, cbItemAlloc | cbAfterRead, cbChunkMem, cbChunkMem | cbItemAlloc | cbBeforeWrite | cbAfterRead,
+		cbRefCount} // a counting, RECYCLING allocator: buffers of items whose count reached zero are overwritten at once
 	if tier == "thorough" {
 		per = 25
 		sets = nil
 		for s := 0; s < 128; s++ {
 			sets = append(sets, s)
 		}
-		sets = append(sets, cbChunkMem, cbChunkMem|cbItemAlloc|cbBeforeWrite|cbAfterRead, cbChunkMem|cbKeyCompare)
+		sets = append(sets, cbChunkMem, cbChunkMem|cbItemAlloc|cbBeforeWrite|cbAfterRead, cbChunkMem|cbKeyCompare, cbRefCount, cbRefCount|cbAfterRead|cbValRead)
 	}
 	modelOn = true
 	rep.Rule = fmt.Sprintf("the correspondence checks of C01 (sorted map), C02 (durability, re-open of the image after every step), C06 (visits), C14 (Coq decoder + conforms_v4 on the file) and C08 (FlushRevert walk-back) re-run with %d callback configurations (none, all, each alone, value triple, alloc+after-read; thorough: all 128 subsets) of behaviourally neutral callbacks: BeforeItemWrite/AfterItemRead returning the item unchanged, custom ItemAlloc, ItemValLength=len, ItemValWrite in 3-byte chunks, ItemValRead in 5-byte chunks, KeyCompareForCollection returning the collection's comparator; plus the tools/slab pattern: values chunked IN MEMORY (Item.Val = first 4 bytes, the rest in Item.Transient) with matching ItemValLength/ItemValWrite/ItemValRead; expected observations are the same reference/model as without callbacks; the same seeds are used for every configuration; non-trivial = at least 8 ops", len(sets))
